@@ -25,7 +25,8 @@ On(s, e) ==
   CASE e.e = "dgram" ->
          [st |-> IF Unspecified(e.raw) THEN [s EXCEPT !.optional = @ + 1]
                  ELSE IF IsNotification(e.raw) THEN [s EXCEPT !.expected = Append(@, [origin |-> e.src, vbs |-> Bindings(e.raw)])] ELSE s,
-          cl |-> << <<"MACHINERY_label_disagrees_with_decoder", Unspecified(e.raw) \/ e.kind = "unspecified" \/ (e.kind = "valid") = IsNotification(e.raw)>> >>]
+          cl |-> << <<"listener_hangs_on_datagram", e.raised # "CPU_BUDGET">>,
+                    <<"MACHINERY_label_disagrees_with_decoder", Unspecified(e.raw) \/ e.kind = "unspecified" \/ (e.kind = "valid") = IsNotification(e.raw)>> >>]
     [] e.e = "callback" ->
          \* the pythonic TrapInfo view must agree with the raw Trap it wraps: origin, trap OID (2nd binding), uptime (1st binding,
          \* TimeTicks -> timedelta, Values!TicksToDelta), payload keys (bindings 3..n)
